@@ -29,7 +29,7 @@ def gen_cases(tier, seed):
         cases.append({"part": "pipeline", "seed": seed * 5003 + i, "n": 8 if q else 24})
     for i in range(4 if q else 40):
         # appended later (slices / packs / unpacks folded into read and write offsets): own cases, the earlier ones denote what they always did
-        cases.append({"part": "pipeline", "seed": seed * 5003 + 100000 + i, "n": 8 if q else 24, "fams": ["shape-ops", "shape-ops", "approx-tail2"]})
+        cases.append({"part": "pipeline", "seed": seed * 5003 + 100000 + i, "n": 8 if q else 24, "fams": ["shape-ops", "grouped-conv", "approx-tail2"]})
     return cases
 
 
